@@ -109,6 +109,51 @@ def check_gates(ctx, prog, lr):
            'anything although the load switch is on (path: %s): while '
            'another call rebuilds the stores this one decides on whatever '
            'is there at that moment' % (bad.cond_text()[-200:] or 'always'))
+    # (1b) within the load step a registered default is left out only when
+    # the store being decided on already has an entry under its name - not
+    # because of other shared state (bookkeeping that a concurrent reload
+    # refreshes at a different moment than the store)
+    bad = None
+    n = 0
+    for p in t.paths:
+        if p.outcome.kind == 'raise':
+            continue
+        start = None
+        for e in p.events:
+            if e.kind == 'iter' and 'self.registered_rules' in U(
+                    t.expand(e.node)):
+                start = e
+                break
+        if start is None or start.nconds >= len(p.conds) or \
+                not p.conds[start.nconds].pol:
+            continue
+        end = len(p.conds)
+        merged = False
+        for e in p.events[p.events.index(start) + 1:]:
+            if e.kind == 'loopdone' and e.line == start.line:
+                end = e.nconds
+                break
+            if classify_event(t, e) == 'MERGE':
+                merged = True
+        if merged:
+            continue
+        n += 1
+        has = any(c.kind == 'test' and c.pol and isinstance(
+            c.expr, ast.Compare) and isinstance(c.expr.ops[0], ast.In)
+            and U(t.expand(c.expr.comparators[0])) == 'self.rules'
+            for c in p.conds[start.nconds:end])
+        if not has and bad is None:
+            bad = p.conds[start.nconds:end]
+    ctx.ob('C20.LOAD-STEP', bad is None, ctx.where(lr.module, lr.node),
+           lr.qual, 'defaults left out of the merge (%d paths)' % n,
+           'a registered default is left out only when the store has its '
+           'name' if bad is None else
+           'a registered default can be left out of the store although the '
+           'store has no entry for it (path: %s): the decision then depends '
+           'on state other than the store it is taken on, which a '
+           'concurrent reload refreshes at a different moment' % ' and '.join(
+               c.text() for c in bad)[-200:])
+    ctx.floor('C20.LOAD-STEP', n, 1, 'skip paths of the default merge')
     # (2) gating flags
     gates = {}
     for p in t.paths:
@@ -276,6 +321,10 @@ def check(ctx):
                        'entrywise': sum(1 for x in lst
                                         if x[3] == 'insert')})
     check_flags(ctx, prog, lr)
+    # the loader reports truthfully whether it rebuilt the store (the
+    # directories are then re-applied on top of it)
+    from . import c10
+    ctx.borrow('C20.LOAD-STEP', c10.check_pair, only=['C10.PAIR'])
     for f, n, lock in readers:
         ctx.sample('reader %s %s:%d %s' % (f.qual, f.module.path.split(
             '/')[-1], n.lineno, U(n)))
